@@ -379,6 +379,8 @@ def make_set(I, items):
 # --------------------------------------------------------------------------- context managers
 
 def enter_context(I, cm):
+    if isinstance(cm, Obj) and hasattr(cm.cls, "__pyvc_enter__"):
+        return cm.cls.__pyvc_enter__(I, cm)
     h = getattr(I.ctx, "context_enter", None)
     if h:
         return h(I, cm)
@@ -386,6 +388,10 @@ def enter_context(I, cm):
 
 
 def exit_context(I, cm, exc):
+    if isinstance(cm, Obj) and hasattr(cm.cls, "__pyvc_exit__"):
+        return cm.cls.__pyvc_exit__(I, cm, exc)
+    if isinstance(cm, Obj) and hasattr(cm.cls, "__pyvc_enter__"):
+        return None
     h = getattr(I.ctx, "context_exit", None)
     if h:
         return h(I, cm, exc)
@@ -1033,10 +1039,21 @@ def _print(I, args, kwargs):
 
 @model(json.loads)
 def _json_loads(I, args, kwargs):
-    h = getattr(I.ctx, "json_loads", None)
-    if h is None:
-        raise Unsupported("json.loads without a model")
-    return h(I, args[0])
+    """json.loads on the abstract text domain: JsonText(v) -> v ; NotJsonText -> JSONDecodeError"""
+    x = args[0]
+    if isinstance(x, Obj) and x.cls is JsonText:
+        return x.attrs["value"]
+    if isinstance(x, SV):
+        t = x.t
+        _used("json.loads: loads(dumps(v)) = v; text that is not JSON raises JSONDecodeError")
+        is_json = z3.And(V.is_VObj(t), V.cls_of(t) == V.REG.info(JsonText).cid)
+        is_not = z3.And(V.is_VObj(t), V.cls_of(t) == V.REG.info(NotJsonText).cid)
+        if not entailed(I, z3.Or(is_json, is_not)):
+            I.p.oblige("no-raise@json.loads", z3.Or(is_json, is_not), "no-raise", detail="TypeError: json.loads argument")
+        if I.p.branch(is_json, "json.loads:valid"):
+            return SV(V.attr_of(t, JsonText, "value"))
+        raise PyRaise(json.JSONDecodeError("Expecting value", "x", 0))
+    raise Unsupported("json.loads of a non-text value")
 
 
 @model(json.dumps)
@@ -1051,4 +1068,14 @@ class JsonText:
     """Spec-level stand-in for the text produced by json.dumps(value)."""
 
 
-V.REG.register(JsonText, ["value"])
+class NotJsonText:
+    """a text that is not valid JSON"""
+
+
+def _build_json_text(value=None):
+    from contracts.lib_http import json_sanitize
+    return json.dumps(json_sanitize(value))
+
+
+V.REG.register(JsonText, ["value"], build=_build_json_text)
+V.REG.register(NotJsonText, [], build=lambda: "this is <not> json")
